@@ -11,7 +11,7 @@ import (
 //verif:entry property=C09 tier=both bounds="bus on the durable-streams store (real client library over the model server): K publishes through PublishContext, each with its own context that is cancelled right after that publish has returned (or, symbolically, kept alive); one record per publish, in order, decoding to the published value; no persistence error" cover="published" K_quick=3 K_thorough=4
 func harnessC09DurablePublishes() {
 	K := vParam("K", 3)
-	st, err := New(vdsServer("c09"), "s")
+	st, err := New(vdsServer("c09"), "s", dsOpts()...)
 	vAssert(err == nil, "store-opens")
 	reported := 0
 	bus := eventbus.New(eventbus.WithStore(st), eventbus.WithPersistenceErrorHandler(func(ev any, t reflect.Type, err error) { reported++ }))
